@@ -2,7 +2,7 @@ from __future__ import annotations
 
 from typing import TYPE_CHECKING, Final, NewType
 
-from .tokenize import Token, TokenInfo
+from .tokenize import Token, TokenError, TokenInfo
 
 if TYPE_CHECKING:
     from collections.abc import Iterator
@@ -53,7 +53,7 @@ class Tokenizer:
             elif self._stack:
                 tok = self._stack.pop()
             else:
-                tok = next(self._tokengen)
+                tok = self._next_raw()
             if self.is_blank(tok):
                 continue
 
@@ -61,6 +61,14 @@ class Tokenizer:
             if not self._path and tok.start[0] not in self._lines:
                 self._lines[tok.start[0]] = tok.line
         return self._tokens[self._index]
+
+    def _next_raw(self) -> TokenInfo:
+        try:
+            return next(self._tokengen)
+        except StopIteration:
+            # a macro swallowed the rest of the input (unbalanced brackets, missing block)
+            pos = self._tokens[-1].end if self._tokens else (1, 0)
+            raise TokenError("EOF while scanning macro", pos) from None
 
     def is_blank(self, tok: TokenInfo) -> bool:
         if self._proc_macro and tok.type == Token.WS:
@@ -82,7 +90,7 @@ class Tokenizer:
         string = ""
         line = ""
         while True:
-            tok = next(self._tokengen)
+            tok = self._next_raw()
             if tok.type == Token.OP and tok.string[-1] in "([{":  # push paren level
                 paren_level.append(tok.string[-1])
             if paren_level:
